@@ -41,7 +41,8 @@ def main():
     blind = {}
     for bl, pre in ((os.path.join(VERIF, 'seeded', 'wave3_blind_evaluation.log'), 'seeded/_incoming3/'),
                     (os.path.join(VERIF, 'seeded', 'wave4_blind_evaluation.log'), 'seeded/_incoming4/'),
-                    (os.path.join(VERIF, 'seeded', 'wave8_blind_evaluation.log'), 'seeded/_incoming8/')):
+                    (os.path.join(VERIF, 'seeded', 'wave8_blind_evaluation.log'), 'seeded/_incoming8/'),
+                    (os.path.join(VERIF, 'seeded', 'wave9_blind_evaluation.log'), 'seeded/_incoming9/')):
         if os.path.exists(bl):
             for line in open(bl):
                 if line.startswith(pre) and ':' in line:
@@ -50,7 +51,7 @@ def main():
                     rest = rest.strip()
                     blind[os.path.join(VERIF, k)] = rest
     # wave 1+2: ids Cxx-1..3; wave 3: ids Cxx-4, Cxx-5; wave 4: ids Cxx-6, Cxx-7; wave 8: ids Cxx-8, Cxx-9
-    for sub, offset, wave in (('_incoming', 0, '1-2'), ('_incoming3', 3, '3'), ('_incoming4', 5, '4'), ('_incoming8', 7, '8')):
+    for sub, offset, wave in (('_incoming', 0, '1-2'), ('_incoming3', 3, '3'), ('_incoming4', 5, '4'), ('_incoming8', 7, '8'), ('_incoming9', 9, '9')):
         inc = os.path.join(VERIF, 'seeded', sub)
         if not os.path.isdir(inc):
             continue
